@@ -188,12 +188,12 @@ Section Decl.
   (** an ancestor-or-self that provides the member with no precondition at all *)
   Definition accept_all (k : nat) (name : string) (acc : mkind) : bool :=
     existsb (fun cm => negb (declares_pre_above (fst cm) name acc)) (definers k name acc)
-    || (is_dunder name && negb (is_ctor name) && negb (declares_pre_above k name acc)).
+    || (str_in name object_slots && negb (is_ctor name) && negb (declares_pre_above k name acc)).
 
   (** the same, when the classes [hidden] are not seen *)
   Definition accept_all_but (hidden : list nat) (k : nat) (name : string) (acc : mkind) : bool :=
     existsb (fun cm => negb (nat_in (fst cm) hidden) && negb (declares_pre_above (fst cm) name acc)) (definers k name acc)
-    || (is_dunder name && negb (is_ctor name) && negb (declares_pre_above k name acc)).
+    || (str_in name object_slots && negb (is_ctor name) && negb (declares_pre_above k name acc)).
 
   Definition declared_groups (k : nat) (name : string) (acc : mkind) : list (list Z) :=
     filter (fun g => negb (is_nil g)) (map (fun cm => own_pre (snd cm)) (definers k name acc)).
@@ -587,7 +587,7 @@ Definition class_misuses (gap_aware : nat) (decls : list cdecl) (w_before : worl
                        let above := filter (fun cm => negb (Nat.eqb (fst cm) k) && negb (nat_in (fst cm) hidden))
                                            (definers decls' mro k (md_name m) acc) in
                        let provided := negb (is_nil above)
-                                       || (is_dunder (md_name m)
+                                       || (str_in (md_name m) object_slots
                                            && match acc with MGet | MSet | MDel => false | _ => true end) in
                        (* a reserved parameter name on a member that carries contracts, own or inherited *)
                        (if sig_reserved (md_sig m)
